@@ -213,6 +213,13 @@ func (a *footnoteASTTransformer) Transform(node *gast.Document, reader text.Read
 
 	counter := map[int]int{}
 	if fnlist != nil {
+		rendered := make([]*ast.FootnoteLink, 0, len(fnlist))
+		for _, fnlink := range fnlist {
+			if footnoteLinkIsRendered(fnlink) {
+				rendered = append(rendered, fnlink)
+			}
+		}
+		fnlist = rendered
 		for _, fnlink := range fnlist {
 			if fnlink.Index >= 0 {
 				counter[fnlink.Index]++
@@ -240,17 +247,11 @@ func (a *footnoteASTTransformer) Transform(node *gast.Document, reader text.Read
 			list.RemoveChild(list, footnote)
 		} else {
 			refCount := counter[index]
-			backLink := ast.NewFootnoteBacklink(index)
-			backLink.RefCount = refCount
-			backLink.RefIndex = 0
-			container.AppendChild(container, backLink)
-			if refCount > 1 {
-				for i := 1; i < refCount; i++ {
-					backLink := ast.NewFootnoteBacklink(index)
-					backLink.RefCount = refCount
-					backLink.RefIndex = i
-					container.AppendChild(container, backLink)
-				}
+			for i := 0; i < refCount; i++ {
+				backLink := ast.NewFootnoteBacklink(index)
+				backLink.RefCount = refCount
+				backLink.RefIndex = i
+				container.AppendChild(container, backLink)
 			}
 		}
 		footnote = next
@@ -267,6 +268,20 @@ func (a *footnoteASTTransformer) Transform(node *gast.Document, reader text.Read
 	}
 
 	node.AppendChild(node, list)
+}
+
+// footnoteLinkIsRendered reports whether the renderer reaches the link: it is neither part of
+// an image's alt text nor inside a footnote that is never referenced (and therefore removed).
+func footnoteLinkIsRendered(n gast.Node) bool {
+	for p := n.Parent(); p != nil; p = p.Parent() {
+		if fn, ok := p.(*ast.Footnote); ok {
+			return fn.Index >= 0
+		}
+		if p.Kind() == gast.KindImage {
+			return false
+		}
+	}
+	return true
 }
 
 // FootnoteConfig holds configuration values for the footnote extension.
